@@ -279,11 +279,33 @@ def run(report, p):
                     brk = [x for s in n.ast.body for x in ast.walk(s) if isinstance(x, ast.Break)]
                     r5.check(not [b for b in brk if _loop_of(b) is n.ast], dh, n.ast, "comparison loop over recorded entries can be left early (break)", construct=f"break in for {norm(n.ast.target)}")
                     break
+    # every consumed verdict of the comparison helper reaches the failure map
+    helpers = {t for c, tg in p.calls[dh.qual] for t in tg if t in p.funcs and p.funcs[t].outer is None and any("hash_string" in norm(x) and isinstance(x, ast.Compare) for x in walk_no_nested(p.funcs[t].node))}
+    n_verdicts = 0
+    for call, tg in p.calls[dh.qual]:
+        if any(t in helpers for t in tg):
+            st = _stmt(call)
+            if not (isinstance(st, ast.Assign) and len(st.targets) == 1 and isinstance(st.targets[0], ast.Name)):
+                continue
+            var = st.targets[0].id
+            n_verdicts += 1
+            r5.instance(dh, call, f"verdict {var} = {norm(call)[:60]}")
+            cn = g.node_for(call)
+            ok = False
+            for t in g.nodes:
+                if t.kind == "test" and any(isinstance(x, ast.Name) and x.id == var for x in ast.walk(t.ast)) and t.id in g.reachable_from([cn]):
+                    for m, l in t.succ:
+                        stops = {h.id for h in g.nodes if h.kind == "loop"} | {g.exit.id}
+                        if m.id in map_signal_nodes or g.find_path(m, stops, avoid=map_signal_nodes) is None and m.id not in stops:
+                            ok = True
+            r5.check(ok, dh, call, f"the verdict `{var}` of the comparison is computed but no branch on it records a failure in the per-format failure map that decides exit 12", construct=f"verdict {var} does not reach the failure map")
+    if n_verdicts == 0:
+        raise AnalysisError("no consumed verdict of the directory comparison helper found")
     fde = p.funcs.get("ascmhl.history.MHLHistory.find_directory_hash_entries_for_path")
     if fde is None:
         raise AnalysisError("find_directory_hash_entries_for_path not found")
     for n in walk_no_nested(fde.node):
-        if isinstance(n, ast.For) and norm(n.iter).endswith("hash_lists"):
+        if isinstance(n, ast.For) and "hash_lists" in norm(n.iter):
             r5.instance(fde, n, f"for {norm(n.target)} in {norm(n.iter)}")
             r5.check(is_plain_iter(p, n.iter), fde, n.iter, "directory entries are collected from a slice of the generations only")
             r5.check(not [x for s in n.body for x in ast.walk(s) if isinstance(x, (ast.Break, ast.Return)) and _loop_of(x) is n], fde, n, "collection of recorded directory entries stops before the last generation", construct=f"early exit in for {norm(n.target)} in {norm(n.iter)}")
